@@ -164,6 +164,15 @@ func (i *ignore) TeardownBlockStatement(meta *ast.Meta) {
 		}
 	}
 
+	// Comments placed just before the closing brace are held as infix comments of the block,
+	// the range must be closed by falco-ignore-end there, otherwise it leaks to the following blocks
+	for _, c := range meta.Infix {
+		ignoreType, rules := parseIgnoreComment(c.String())
+		if ignoreType == falcoIgnoreEnd {
+			unignoreRules(&i.ignoreRange, rules)
+		}
+	}
+
 	for _, c := range meta.Trailing {
 		switch ignoreType, rules := parseIgnoreComment(c.String()); ignoreType {
 		case falcoIgnoreThisLine:
